@@ -297,7 +297,7 @@ def gen_mt(rng, n, maxreq):
 def monitor_mt(case, out):
     k, workers, reqs = case
     try:
-        ok, evs, avail, granted, early, late, avail_end, maxc, stuck = out
+        ok, evs, avail, granted, early, late, avail_end, maxc, stuck, orphaned = out
     except Exception:
         return ['malformed implementation output: %s' % sx.dumps(out)[:300]]
     b = Book(k)
@@ -307,12 +307,13 @@ def monitor_mt(case, out):
     if stuck:
         vs.append('a request that was never cancelled did not obtain a token within the deadline (token leaked or hand-off stuck)')
     ids = [r[0] for r in reqs]
+    plan = {r[0]: r for r in reqs}
     for r in ids:
         if r not in b.requested:
-            vs.append('request %d never reached the jobserver' % r)
+            if plan[r][4] == 0:
+                vs.append('request %d never reached the jobserver' % r)
         elif r not in b.ended:
             vs.append('request %d neither finished nor was cancelled' % r)
-    plan = {r[0]: r for r in reqs}
     for r, how in b.ended.items():
         if r in plan and plan[r][4] == 0:
             want = {0: 'drop_held', 1: 'exit', 2: 'exit', 3: 'spawn_fail'}[plan[r][2]]
@@ -340,6 +341,7 @@ def stats_mt(case, out):
     try:
         for e in out[1]:
             ks.append('ev=' + ev_tag(e))
+        ks += ['child_dropped_while_process_still_running(orphan_without_token)'] * out[9]
     except Exception:
         pass
     return ks
@@ -379,13 +381,13 @@ def neighbours_mt(case):
 def legs(tier):
     def gdet(rng, tier):
         if tier == 'thorough':
-            return gen_det_exhaustive(5) + gen_det(rng, 12000, 40)
-        return gen_det_exhaustive(4) + gen_det(rng, 1500, 30)
+            return gen_det_exhaustive(5) + gen_det(rng, 40000, 40)
+        return gen_det_exhaustive(4) + gen_det(rng, 2500, 30)
 
     def gmt(rng, tier):
         if tier == 'thorough':
-            return gen_mt(rng, 3000, 16) + gen_mt(rng, 600, 40)
-        return gen_mt(rng, 360, 12) + gen_mt(rng, 40, 40)
+            return gen_mt(rng, 9000, 16) + gen_mt(rng, 1500, 40)
+        return gen_mt(rng, 600, 12) + gen_mt(rng, 60, 40)
 
     return [
         Leg('det', gdet, monitor=monitor_det, nontrivial=nontrivial_det, shrink=shrink_ops, neighbours=neighbours_det,
@@ -551,7 +553,7 @@ def e2e_run(rep, binp, rng, tier, idx):
             except OSError:
                 pass
 
-        nbursts = 2 if tier == 'quick' else 6
+        nbursts = 3 if tier == 'quick' else 6
         total = killed = failing = 0
         for b in range(nbursts):
             n = rng.range(12, 40) if tier != 'quick' else (16 if b == 0 else rng.range(24, 40))
@@ -648,7 +650,7 @@ def extra(rep, known):
         return
     binp = pipeline.repo_bin('sccache')
     rng = pipeline.Rng(rep.seed).fork('C16:e2e')
-    runs = 1 if rep.tier == 'quick' else 3
+    runs = 1 if rep.tier == 'quick' else 4
     t0 = time.time()
     allp = []
     for i in range(runs):
@@ -661,6 +663,7 @@ def extra(rep, known):
         for p in problems:
             rep.violation('property', 'e2e', 'e2e run %d seed %d: %s' % (i, rep.seed, info), p)
         allp += problems
+    rep.traces += rep.legs.get('mt', {}).get('cases', 0)  # every mt case is one recorded trace put to the model's `accept`
     rep.legs['e2e'] = dict(runs=runs, problems=len(allp), wall_s=round(time.time() - t0, 1))
     rep.oblige('e2e:ledger-bound-and-no-leak', not allp, '; '.join(allp[:5]) if allp else 'max concurrency <= tokens in every burst; saturating burst reached the token count')
     rep.rule.append('e2e: real sccache server under `taskset -c 0-2` (token count = util::num_cpus() evaluated by the harness in the '
